@@ -107,16 +107,25 @@ PHF_MOCK = r'''
 #[cfg(kani)]
 #[allow(dead_code)]
 pub mod phf {
+    /// like phf_shared::PhfBorrow: lets `map.get("literal")` / `map.get(s: &str)` work for &'static str keys
+    pub trait PhfBorrow<K> { fn with<R, F: FnOnce(&K) -> R>(&self, f: F) -> R; }
+    impl<K> PhfBorrow<K> for K { fn with<R, F: FnOnce(&K) -> R>(&self, f: F) -> R { f(self) } }
+    impl PhfBorrow<&'static str> for str {
+        fn with<R, F: FnOnce(&&'static str) -> R>(&self, f: F) -> R {
+            let s: &'static str = unsafe { core::mem::transmute::<&str, &'static str>(self) };   // only compared, never kept
+            f(&s)
+        }
+    }
     pub struct Set<T: 'static> { pub f: fn(&T) -> bool, pub keys: &'static [T] }
     impl<T> Set<T> {
-        pub fn contains(&self, k: &T) -> bool { (self.f)(k) }
+        pub fn contains<Q: ?Sized + PhfBorrow<T>>(&self, k: &Q) -> bool { k.with(|kk| (self.f)(kk)) }
         pub fn iter(&self) -> core::slice::Iter<'static, T> { self.keys.iter() }
         pub fn len(&self) -> usize { self.keys.len() }
     }
     pub struct Map<K: 'static, V: 'static> { pub f: fn(&K) -> Option<&'static V>, pub entries: &'static [(K, V)] }
     impl<K, V> Map<K, V> {
-        pub fn get(&self, k: &K) -> Option<&'static V> { (self.f)(k) }
-        pub fn contains_key(&self, k: &K) -> bool { (self.f)(k).is_some() }
+        pub fn get<Q: ?Sized + PhfBorrow<K>>(&self, k: &Q) -> Option<&'static V> { k.with(|kk| (self.f)(kk)) }
+        pub fn contains_key<Q: ?Sized + PhfBorrow<K>>(&self, k: &Q) -> bool { k.with(|kk| (self.f)(kk)).is_some() }
         pub fn len(&self) -> usize { self.entries.len() }
     }
 }
